@@ -13,6 +13,8 @@ import (
 	"strings"
 	"time"
 
+	"github.com/ethereum/go-ethereum/accounts/abi"
+
 	"github.com/cosmos/cosmos-sdk/codec"
 	sdk "github.com/cosmos/cosmos-sdk/types"
 )
@@ -333,6 +335,29 @@ func SameObject(a, b interface{}) bool {
 }
 
 func BytesEq(a, b []byte) bool { return string(a) == string(b) }
+
+// CallMethod / CallArgs decode a contract call payload produced by abi.Pack.
+func CallMethod(a abi.ABI, data []byte) string {
+	if len(data) < 4 {
+		return ""
+	}
+	m, err := a.MethodById(data[:4])
+	if err != nil {
+		return ""
+	}
+	return m.Name
+}
+func CallArgs(a abi.ABI, data []byte) []interface{} {
+	if len(data) < 4 {
+		return nil
+	}
+	m, err := a.MethodById(data[:4])
+	if err != nil {
+		return nil
+	}
+	out, _ := m.Inputs.Unpack(data[4:])
+	return out
+}
 
 // Tier: 0 quick, 1 thorough.
 func Tier() int {
